@@ -4,9 +4,16 @@ From PyGql Require Import Run.Driver Lang.PrinterModel.
 
 Inductive in03 :=
 | CDoc (d : document) (ind : str) (incl : bool)      (* ASTPrinter(indent, include_descriptions)(document) *)
-| CVal (v : value) (ind : str).                      (* ASTPrinter(indent)(value node) *)
+| CVal (v : value) (ind : str)                       (* ASTPrinter(indent)(value node) *)
+| CHist (calls : list (document * str * bool)).
+    (* a sequence of print_ast(doc, indent, include_descriptions) / ASTPrinter(...)(doc) calls made
+       one after the other in one process: printing is a pure function of its three arguments,
+       so every call of the history must give the model's text whatever was printed before *)
 
-Inductive obs03 := OText (t : str) | ORaised.
+Inductive obs03 :=
+| OText (t : str)
+| ORaised
+| OTexts (ts : list (option str)).                   (* one entry per call; None = the call raised *)
 
 Definition case_C03 : Type := in03 * obs03.
 
@@ -14,10 +21,23 @@ Definition model_C03 (i : in03) : str :=
   match i with
   | CDoc d ind incl => print_ast ind incl d
   | CVal v ind => pr_value (Cfg ind true) v
+  | CHist _ => []
+  end.
+
+Definition model_hist (calls : list (document * str * bool)) : list str :=
+  map (fun c => match c with (d, ind, incl) => print_ast ind incl d end) calls.
+
+Fixpoint texts_agree (ms : list str) (ts : list (option str)) : bool :=
+  match ms, ts with
+  | [], [] => true
+  | m :: ms', Some t :: ts' => str_eqb m t && texts_agree ms' ts'
+  | _, _ => false
   end.
 
 Definition agree_C03 (c : case_C03) : bool :=
-  match snd c with
-  | OText t => str_eqb (model_C03 (fst c)) t
-  | ORaised => false
+  match fst c, snd c with
+  | CHist calls, OTexts ts => texts_agree (model_hist calls) ts
+  | CHist _, _ => false
+  | i, OText t => str_eqb (model_C03 i) t
+  | _, _ => false
   end.
